@@ -427,7 +427,7 @@ def ws_twin(t):
 
 def gen_cases(rng, tier):
     cases = []
-    n_uni = 14 if tier == "quick" else 200
+    n_uni = 22 if tier == "quick" else 200
     per_uni = 22 if tier == "quick" else 50
     for _ in range(n_uni):
         u = gen_universe(rng)
